@@ -46,6 +46,11 @@ def _prepare_environment():
     deps = os.path.join(VERIF, ".deps")
     if os.path.isdir(deps):
         sys.path.append(deps)
+    # first import writes ~/.evo/settings.json and announces it on stdout: keep our stdout clean
+    import contextlib
+    import io
+    with contextlib.redirect_stdout(io.StringIO()):
+        import evo.tools.settings  # noqa
     return scratch
 
 
